@@ -113,4 +113,41 @@ theorem run_setMax (fuel : Nat) : ∀ (p : Proc) (m : Nat), p.maxCycles = 0 → 
       | throw s => rfl
       | fault f => rfl
     · rfl
+/-- The processor a run ends with. -/
+def RunRes.proc : RunRes → Proc
+  | .returned _ p => p
+  | .threw _ p => p
+  | .faulted _ p => p
+  | .outOfFuel p => p
+
+/-- The cycle counter never passes the limit by more than one, however the run ends. -/
+theorem run_cycles_bound (fuel : Nat) : ∀ (p : Proc), 0 < p.maxCycles →
+    (run fuel p).proc.cycles ≤ max p.cycles (p.maxCycles + 1) ∧
+    (run fuel p).proc.maxCycles = p.maxCycles := by
+  induction fuel with
+  | zero =>
+    intro p hm
+    unfold run
+    split <;> simp [RunRes.proc] <;> omega
+  | succ n ih =>
+    intro p hm
+    unfold run
+    split
+    · rename_i hl
+      have hfr := stepBody_frame p
+      cases hs : stepBody p with
+      | ok q =>
+        rw [hs] at hfr
+        simp only [Res.All] at hfr
+        simp only []
+        have := ih q (by rw [hfr.2.1]; exact hm)
+        rw [hfr.2.1, hfr.2.2.2.2.1] at this
+        have hc : p.cycles ≤ p.maxCycles := by
+          simp [loopCond, hm] at hl; exact hl.2
+        refine ⟨?_, this.2⟩
+        have := this.1
+        omega
+      | throw s => simp [RunRes.proc]; omega
+      | fault f => simp [RunRes.proc]; omega
+    · simp [RunRes.proc]; omega
 end Hex.Sim
